@@ -2,7 +2,7 @@
    Result code per case: 0 = agrees with the model (both variants where a variant exists), 1 = agrees only with
    today's variant (_current), 2 = agrees only with the repaired variant, 3 = disagrees with the model. *)
 From Coq Require Import List Arith NArith ZArith Bool.
-From OG Require Import C05.Model C05.Trunc C05.ReadPath.
+From OG Require Import C05.Model C05.Trunc C05.ReadPath C05.RestartRace.
 Import ListNotations.
 
 Fixpoint list_eqb {A} (eqb : A -> A -> bool) (a b : list A) : bool :=
@@ -56,6 +56,7 @@ Inductive case :=
 | CTrunc (fsz first last : N) (T : Z) (rs : list (Z * bool * list bool * list N * N * option N * bool))
 | CGroupT (stale lost : bool)
 | CGroupL (lost : bool)
+| CGroupR (lost : bool)
 | CReadSel (health : bool) (master : nat) (online : list bool) (shard_pts : list nat) (sel : list nat)
 | CSend (fsz first last snp : N) (probes : list (N * bool)) (slots : list (N * option nat * Z * bool)).
 
@@ -285,6 +286,13 @@ Definition classify (c : case) : nat :=
         | None => false
         end in
       variant (Bool.eqb (m false) lost) (Bool.eqb (m true) lost)
+  | CGroupR lost =>
+      (* scenario replayrace: the rejoined member's replay is slower than the entries shipped by the leader *)
+      let x := mkNode false false [EData 0 1%N [(1%N, 10%Z)]; EData 0 2%N [(1%N, 11%Z)]] 0 1 0 [(1%N, 10%Z)] [] [] 0 0 [] [] false [] 0%N in
+      let es := [EData 0 2%N [(1%N, 11%Z)]] in
+      let stale := fun y : node => negb (match get (view y) 1%N with Some v => Z.eqb v 11 | None => false end) in
+      variant (Bool.eqb (stale (apply_then_replay (cfg_today 3 2) 1 x es)) lost)
+              (Bool.eqb (stale (replay_then_apply (cfg_today 3 2) 1 x es)) lost)
   | CReadSel health master online shard_pts sel =>
       if list_eqb Nat.eqb (read_shards health master (fun p => nth p online false) shard_pts) sel then 0 else 3
   | CGroupT stale lost =>
